@@ -92,13 +92,16 @@ pub fn multipart_form_must_reject(bytes: &[u8]) -> Option<&'static str> {
     for part in inner.split("\r\n--XB\r\n") {
         let (phead, pbody) = part.split_once("\r\n\r\n")?;
         if pbody.contains("--XB") { return None; }
+        // only header blocks of printable ASCII are judged (the server drops control characters from header lines before it reads them:
+        // 'n<TAB>ame="a"' is a name parameter to it - a first version of this rule called that part nameless and raised a false alarm, seed 104)
+        if !phead.bytes().all(|b| (0x20..0x7f).contains(&b) || b == b'\r' || b == b'\n') { return None; }
         let mut disp: Vec<&str> = vec![];
         for l in phead.split("\r\n") { let (n, v) = l.split_once(": ")?; if !n.bytes().all(|b| b.is_ascii_alphanumeric() || b == b'-') { return None; } if n.eq_ignore_ascii_case("content-disposition") { disp.push(v); } }
         if disp.len() != 1 { return None; }
         let ty = disp[0].split(';').next().unwrap_or("").trim().to_ascii_lowercase();
         if !ty.bytes().all(|b| b.is_ascii_alphanumeric() || b == b'-') || ty.is_empty() { return None; }
         if !matches!(ty.as_str(), "form-data" | "attachment" | "inline") { verdict = Some("a part's Content-Disposition names a type that is not form-data"); }
-        else if ty == "form-data" && !disp[0].to_ascii_lowercase().contains("name=") { verdict = Some("a form-data part without a name parameter"); }
+        else if ty == "form-data" && !disp[0].to_ascii_lowercase().contains("name") { verdict = Some("a form-data part without a name parameter"); }
     }
     verdict
 }
